@@ -806,6 +806,14 @@ def conv_case(rng, c, P):
     for k in ("alpha", "beta"):
         if k in c:
             c[k] = cv(c[k])
+    finite_y = all(math.isfinite(v.real if isinstance(v, complex) else v) for k2 in ("y", "c") if isinstance(c.get(k2), list) for v in c[k2])
+    if P["ncomp"] == 2 and "alpha" in c and "beta" in c and finite_y and rng.random() < 0.4:
+        # complex scalars at the special-case boundaries of the level-2/3 routines: a purely imaginary (or zero) alpha, a beta whose
+        # REAL part is exactly 1 or 0 while the scalar is not the real 1 or 0 -- tests like `alpha == 0 && beta == 1` must look at
+        # both components
+        c["alpha"] = rng.choice([complex(0, 1), complex(0, -2.5), complex(0, 0.75), complex(0, 0), c["alpha"]])
+        c["beta"] = rng.choice([complex(1, 0.5), complex(1, -3), complex(0, 1), complex(0, -0.5), c["beta"]])
+        c["ak"] = c["bk"] = "cplx-special"
     for k in ("x", "y", "b", "c", "M", "rhs", "vec", "Mx", "a", "bval"):
         if k in c and isinstance(c[k], list):
             c[k] = [cv(v) for v in c[k]]
@@ -987,6 +995,26 @@ def kp_langs(c, val, P):
     return None if lo * (1 - g) <= v <= hi * (1 + g) else "norm %s: %r not in [%.9g, %.9g]" % (nm, val, float(lo), float(hi))
 
 
+def kp_gemm(c, cres, P, conjugate_for_C=True):
+    """sp_?gemm column by column against the exact dense definition (kp_gemv on each column of B and C); entries of C outside the
+    m x n block (leading-dimension padding) must be untouched"""
+    A = c["A"]; tr = c["tr"].upper(); notran = tr == "N"
+    rows_b = A["n"] if notran else A["m"]
+    rows_c = A["m"] if notran else A["n"]
+    ldb, ldc, nrhs = c["ldb"], c["ldc"], c["n"]
+    for j in range(nrhs):
+        sub = {"A": A, "tr": c["tr"], "alpha": c["alpha"], "beta": c["beta"], "incx": 1, "incy": 1, "xo": 0, "yo": 0,
+               "x": c["b"][j * ldb: j * ldb + rows_b], "y": c["c"][j * ldc: j * ldc + rows_c]}
+        why = kp_gemv(sub, cres[j * ldc: j * ldc + rows_c], P, conjugate_for_C=conjugate_for_C)
+        if why:
+            return "column %d: %s" % (j, why)
+        for i in range(rows_c, ldc):
+            a, b = cres[j * ldc + i], c["c"][j * ldc + i]
+            if a != b and not (a != a and b != b):
+                return "column %d: padding entry C(%d,%d) was written" % (j, i, j)
+    return None
+
+
 def kp_oracle(c, r, P):
     """property oracle on a C result of precision P; returns None | description; findings handled by caller"""
     st, tok = r
@@ -998,6 +1026,10 @@ def kp_oracle(c, r, P):
         if st != "ok":
             return "status " + st
         return kp_gemv(c, vals_of(tok[1:1 + int(tok[0]) * nc], nc), P)
+    if op == "gemm":
+        if st != "ok":
+            return "status " + st
+        return kp_gemm(c, vals_of(tok[1:1 + int(tok[0]) * nc], nc), P)
     if op in ("lsolve", "usolve", "matvec"):
         return kp_kernel(c, vals_of(tok[1:1 + int(tok[0]) * nc], nc), P) if st == "ok" else "status " + st
     if op == "langs":
@@ -1087,6 +1119,14 @@ def kpred_run(ctx, flavor, prec, nscale):
         for _ in range(2):
             k += 1
             cases.append(gen_langs(rng, k, nm))
+    # sp_?gemm in this precision (the real complex twins are separate source files): N and T (trans = 'C' is the known
+    # no-conjugation finding of the complex sp_?gemv it calls)
+    for _ in range(10 * nscale):
+        k += 1
+        g = gen_gemm(rng, k)
+        if P["ncomp"] == 2 and g["tr"] == "C":
+            g["tr"] = "T"                 # same shapes as 'C'
+        cases.append(g)
     cases = [conv_case(rng, c, P) for c in cases]
     for c in cases:
         c["id"] = prec + c["id"]
